@@ -125,7 +125,16 @@ fn inv(op: &Op, _ctx: &dyn Context, operands: &mut dyn CoordinateSet) -> usize {
             // The authalic latitude is a bit convoluted. Note that
             // qp = 1 - ((1 - es) / (2e)) * ln((1 - e) / (1 + e)), also in the limit e = 0
             let denom = a * a * qp;
-            let xi = (-sign) * (1.0 - rho * rho / denom).clamp(-1.0, 1.0).asin();
+            let sin_xi = 1.0 - rho * rho / denom;
+
+            // Outside the disc? (the opposite pole is on its perimeter, hence the
+            // allowance for rounding)
+            if sin_xi < -1.0 - 1e-12 {
+                debug!("LAEA: ({x}, {y}) outside domain");
+                operands.set_xy(i, f64::NAN, f64::NAN);
+                continue;
+            }
+            let xi = (-sign) * sin_xi.clamp(-1.0, 1.0).asin();
 
             let lon = lon_0 + (x - x_0).atan2(sign * (y - y_0));
             let lat = ellps.latitude_authalic_to_geographic(xi, &authalic);
